@@ -84,6 +84,10 @@ type PhasedConn struct {
 
 	OnRead func()
 	OnWire func([]byte)
+
+	// RemoteServer: the code under test is the CLIENT; the remote end is a real TLS server that
+	// is attached when the local side starts a handshake (writes a TLS record in plaintext mode)
+	RemoteServer bool
 }
 
 func NewPhasedConn(plain []Raw, tlsPhase []Raw, haveTLS bool, startInTLS bool) *PhasedConn {
@@ -172,6 +176,11 @@ func (c *PhasedConn) Write(b []byte) (int, error) {
 	if c.closed {
 		c.mu.Unlock()
 		return 0, net.ErrClosed
+	}
+	if c.mode == 0 && c.RemoteServer && c.haveTLS && looksLikeTLSRecord(b) {
+		// the client under test starts its handshake: attach the TLS server
+		c.mode = 1
+		go c.runClient()
 	}
 	if c.mode == 0 {
 		if looksLikeTLSRecord(b) {
@@ -266,7 +275,14 @@ func (c *PhasedConn) runClient() {
 		c.cond.Broadcast()
 		c.mu.Unlock()
 	}()
-	tc := tls.Client(clientSide{c}, &tls.Config{InsecureSkipVerify: true, DynamicRecordSizingDisabled: true})
+	var tc *tls.Conn
+	if c.RemoteServer {
+		cfg := serverTLSConfig()
+		cfg.DynamicRecordSizingDisabled = true
+		tc = tls.Server(clientSide{c}, cfg)
+	} else {
+		tc = tls.Client(clientSide{c}, &tls.Config{InsecureSkipVerify: true, DynamicRecordSizingDisabled: true})
+	}
 	if err := tc.Handshake(); err != nil {
 		return
 	}
